@@ -364,10 +364,22 @@ def _judge_sibling(case, res, arr, sol, pinned, sp2, Rd):
     V = Rd.vec(res.state_value, arr.S)
     facts = dict(algorithm="pi_batch_sibling", gamma=sp2.gamma,
                  zero_closed_set=bool(_zero_reward_closed_set(arr, pinned).any()) if sp2.gamma == 1.0 else False)
+    # the same bound as for the judged member: policy iteration's own tie band (isclose, rtol 1e-5) allows
+    # delta/(1-gamma), resp. delta * E[steps of the returned policy]
+    from mon.ref import mdp as Rf
+    Q = Rd.mat(res.action_value, arr.S, arr.A)
+    qmax = float(np.abs(np.where(np.isfinite(Q), Q, 0.0)).max()) if Q.size else 0.0
+    delta_pi = 1e-8 + 1e-5 * qmax
+    if sp2.gamma < 1:
+        Bs = np.full(len(arr.S), delta_pi / (1 - sp2.gamma) + 1e-9 * sol.scale)
+    else:
+        PI = Rd.mat(res.policy, arr.S, arr.A)
+        steps, _, _ = Rf.expected_steps(arr, _norm_rows(PI, arr.avail), pinned, return_parts=True)
+        Bs = delta_pi * (1.0 + np.where(np.isfinite(steps), steps, 0.0)) + 1e-9 * sol.scale
     for i in range(len(arr.S)):
         if not pinned[i]:
             d = V[i] - sol.V[i]
-            case.check(abs(d) <= 1e-9 * sol.scale, "state_value-outside-bound",
+            case.check(abs(d) <= Bs[i], "state_value-outside-bound",
                        f"pi_batch sibling: V[{arr.S[i]!r}]={V[i]!r} V*={sol.V[i]!r}",
                        diff=float(d), below_opt=bool(d < 0), **facts)
 
